@@ -134,7 +134,13 @@ def s6(chk: Check, proj: Project, w) -> None:
 
     _m, _f, _call, elems = root_attr_elems(proj)
     if elems is None:
-        chk.undecided("S6", "dependencies:set_component_attrs_for_js_and_css:root-attribute-list", dm.loc(pc[0]) if pc else dm.loc(df), "construction of the root-attribute list not understood")
+        # a loop that copies the list through a filter: which attributes can it drop?
+        filt = [lp for lp in ast.walk(df) if isinstance(lp, ast.For) and any(isinstance(i, ast.If) and any(isinstance(c_, ast.Call) and isinstance(c_.func, ast.Attribute) and c_.func.attr in ("lower", "casefold", "upper") for c_ in ast.walk(i.test)) for i in ast.walk(lp))]
+        if filt:
+            chk.violated("S6", "dependencies:set_component_attrs_for_js_and_css:root-attribute-list", dm.loc(filt[0]),
+                         f"`for {short(filt[0].target)} in {short(filt[0].iter)}` drops attributes that are equal up to LETTER CASE before they are applied: render ids are case-sensitive ([0-9a-zA-Z]), so a component whose id equals an inherited id up to case (p7XmB2 / P7xMb2) loses its own marker - the shared root carries one id instead of both")
+        else:
+            chk.undecided("S6", "dependencies:set_component_attrs_for_js_and_css:root-attribute-list", dm.loc(pc[0]) if pc else dm.loc(df), "construction of the root-attribute list not understood")
     else:
         ps = params(df)
         inherited = [e for e in elems if e.opaque and any(isinstance(x, ast.Name) and x.id in ps for x in ast.walk(e.expr))]
@@ -424,7 +430,11 @@ def s2(chk: Check, proj: Project, w) -> None:
         ok, wit = l2.accepts_all(a)
         chk.ob("S2", "perfutil.component:nested_comp_pattern", rloc, ok, "nested_comp_pattern matches the placeholder for every id" if ok else f"placeholder {wit!r} is not matched")
     # attribute carrying the id
-    shapes, sloc = root_attr_shapes(proj, ev)
+    try:
+        shapes, sloc = root_attr_shapes(proj, ev)
+    except AnalysisError as e_:
+        chk.undecided("S2", "dependencies:set_component_attrs_for_js_and_css:root-attribute-shapes", gm.loc(gf), f"root attribute shapes not derivable: {e_}")
+        shapes, sloc = [], gm.loc(gf)
     # a placeholder that is the root of k nested root components carries k inherited id attributes (unbounded k):
     # writer language  <prefix>( <attr>="")*></template>  must be inside the reader's language
     tail = "></template>"
